@@ -3,6 +3,7 @@ import EG.Build
 import EG.Render
 import EG.Trav
 import EG.TravOps
+import EG.StepX
 import EG.Single
 import EG.Pickle
 /-
@@ -255,6 +256,10 @@ def vfilter (n : Nat) (k : Option Nat) (x : Nat) : Bool :=
   | none => true
   | some k => if x > n then true else k.testBit ((if x == n then 0 else x + 1) % 64)
 
+/-- the same family as a table over vertices (`none` = Python None), the form `M.stepX` takes -/
+def resTable (k : Nat) (o : Option VId) : Bool :=
+  k.testBit ((match o with | none => 0 | some v => v + 1) % 64)
+
 def step (st : DState) (line : String) : DState × String :=
   let w := st.w
   let toks := (line.trimAscii.toString.splitOn " ").filter (· ≠ "")
@@ -452,12 +457,17 @@ def step (st : DState) (line : String) : DState × String :=
       | some uni, some start, some dir, some unk, some via, some res =>
         if !(w.vOK start) || !(uni.all w.isUni) then bad else
         let k : TO.TravKind := if kind == "bft" then .bft else if kind == "dftr" then .dftr else .dfti
-        let (out, e) := TO.traverse w filterTable (vfilter w.nV res) k uni start dir unk via
-        let lst := showList (showTravId w.nV) out
-        if mode == "gen" then
-          (st, "gen " ++ lst ++ (match e with | none => " end" | some e => " " ++ errLine e))
-        else
-          (st, match e with | none => "ok " ++ lst | some e => errLine e)
+        -- the state-threading entry point (EG.TravState via EG.StepX): every `neighbors()` call the
+        -- loop makes goes through the memo, and the world afterwards carries what it wrote
+        match M.stepX filterTable resTable w (.traverse k uni start dir unk via res) with
+        | (w', .listing out e) =>
+          let st := { st with w := w' }
+          let lst := showList (showTravId w.nV) out
+          if mode == "gen" then
+            (st, "gen " ++ lst ++ (match e with | none => " end" | some e => " " ++ errLine e))
+          else
+            (st, match e with | none => "ok " ++ lst | some e => errLine e)
+        | _ => bad
       | _, _, _, _, _, _ => bad
     else generic ()
   | [kind, uni, start, attr, val] =>
@@ -466,10 +476,11 @@ def step (st : DState) (line : String) : DState × String :=
       | some uni, some start, some attr, some val =>
         if !(w.vOK start) || !(uni.all w.isUni) then bad else
         let k : TO.SearchKind := if kind == "bfs" then .bfs else if kind == "dfsr" then .dfsr else .dfsi
-        match TO.search w filterTable k uni start attr val with
-        | .inl e => (st, errLine e)
-        | .inr none => (st, "ok -")
-        | .inr (some x) => (st, s!"ok V{x}")
+        match M.stepX filterTable resTable w (.search k uni start attr val) with
+        | (w', .found (.inl e)) => ({ st with w := w' }, errLine e)
+        | (w', .found (.inr none)) => ({ st with w := w' }, "ok -")
+        | (w', .found (.inr (some x))) => ({ st with w := w' }, s!"ok V{x}")
+        | _ => bad
       | _, _, _, _ => bad
     else generic ()
   | _ => generic ()
